@@ -3,68 +3,113 @@ import RxnModel.Proofs.Align
 # C02 — barrier alignment gives every operator checkpoint a consistent cut
 
 Property theorems only. Model: `Model/Align.lean` (`step`: the `RLock` section of `HandleEvent` = `align`,
-the rendezvous on `o.events` plus the consumer's event function = `go`, the batcher's timeout = `tick`/`stale`).
-All theorems quantify over every action list `as`: every `align sr it` carries its item, so this covers every
-number of senders `k`, every per-sender sequence of keyed events / watermarks / barriers (including repeated,
-skipped and mismatching barrier ids), every batch size `b` and every interleaving, with any number of
-consecutive checkpoints in one run.
+the rendezvous on `o.events` plus the consumer's event function = `go`, the batcher's timeout = `tick`/`stale`,
+an injected failure of the ack to the job = `armFail`, `HandleDeploy` on the running operator = `redeploy`).
 
-Explicit exclusions of the model (the harness never drives the real code there): `db.Checkpoint` and the job's
-`OperatorCheckpointComplete` succeed (on an error the real `handleCheckpointBarrier` returns with the completed
-checkpoint left in place: later barriers are rejected as id mismatches and a repeated barrier `N` panics with
-"close of closed channel" — reproduced on the real code, reported, outside this property's statement); senders
-are the deployed `SourceRunnerIds` and each sender issues its `HandleEventBatch` calls sequentially;
-`SourceComplete` events are not part of the scripts.
+The trace theorems are stated for one *deployment epoch*: a run `runFrom s0 [] as` from any `Fresh` state `s0`
+(no checkpoint in progress, nobody parked, job reachable — the initial state `init k b` and every state right
+after a `redeploy` are fresh, `init_is_fresh` / `redeploy_is_fresh`) under any list `as` of plain actions
+(`align`, `go`, `tick`, `stale`). Every `align sr it` carries its item, so this covers every number of senders,
+every per-sender sequence of keyed events / watermarks / barriers / source-complete markers (including repeated,
+skipped and mismatching barrier ids), every batch size and every interleaving, with any number of consecutive
+checkpoints. A fresh state may carry keyed state, timers, events waiting in the batcher and calls that already
+passed alignment (all of which survive a redeploy in the code); the theorems account for them (`s0.kv`,
+`s0.timers`, `userOf s0.pending`).
+
+What is guaranteed when the ack to the job fails is stated separately (`failed_ack_*`, `stale_record_*`): the
+snapshot is taken but the completed checkpoint record stays; nobody blocks any more, every barrier with another
+id is rejected, and only a redeploy (which the failing sender's worker triggers by exiting) starts a new epoch.
+
+Remaining exclusions: `db.Checkpoint` itself does not fail; senders are the deployed `SourceRunnerIds` and each
+issues its `HandleEventBatch` calls sequentially; a redeploy is modelled onto fresh storage (restoring DKV
+state is C06/C08).
 
 Trace vocabulary (`Proofs/Align.lean`): `procsOf obs` = the items the single consumer took, in order, with
 their sender; `entriesOf obs` = the entries (keyed events and expired timers) handed to the user handler, in
-order; `userOf` / `userProcs` = the keyed events among them; `lastProc sr p` = the last item of sender `sr`.
+order; `userOf` / `userProcs` = the keyed events among them; `lastProc sr p` = the last item of sender `sr`;
+`timersOf c obs` = the timer store replayed from the trace (requests of handled events under the `SetTimer`
+guard of the watermark the handler was called with, minus fired timers, in trace order).
 -/
 namespace Rxn.C02
 open Rxn Rxn.Align
 
+/-- all actions of normal operation -/
+def Plain (as : List Act) : Prop := ∀ a ∈ as, a.plain = true
+
 /-- **Consistent cut.** Whenever a checkpoint `id` is taken with keyed state `S`, then for the trace `pre` before it:
 `S` is the fold of exactly the entries the handler received (nothing is still pending in the batcher); the keyed
-events the handler received are exactly the keyed events the consumer took from the senders, in the same order;
-and for every sender the last item taken from it is its barrier `id` — i.e. the snapshot contains the effects of
-precisely what each sender delivered up to its own barrier `id`, and of nothing a sender delivered after it. -/
-theorem consistent_cut (k b : Nat) (as : List Act) (pre post : List Obs) (id : Nat) (S : KVf) (T : Timers)
-    (h : (run k b as).2 = pre ++ Obs.snap id S T :: post) :
-    S = (entriesOf pre).foldl applyRec emptyKV ∧
-    userOf (entriesOf pre) = userProcs (procsOf pre) ∧
-    ∀ sr, sr < k → lastProc sr (procsOf pre) = some (Item.bar id) := by
-  obtain ⟨_, _, hcut, _⟩ := run_ok k b as
+events the handler received are exactly those waiting at the start of the epoch followed by the keyed events
+the consumer took from the senders, in the same order; and for every sender the last item taken from it is its
+barrier `id` — the snapshot contains the effects of precisely what each sender delivered up to its own barrier
+`id`, and of nothing a sender delivered after it. -/
+theorem consistent_cut (s0 : St) (hf : Fresh s0) (as : List Act) (hpl : Plain as) (pre post : List Obs) (id : Nat)
+    (S : KVf) (T : Timers) (h : (runFrom s0 [] as).2 = pre ++ Obs.snap id S T :: post) :
+    S = (entriesOf pre).foldl applyRec s0.kv ∧
+    userOf (entriesOf pre) = userOf s0.pending ++ userProcs (procsOf pre) ∧
+    ∀ sr, sr < s0.k → lastProc sr (procsOf pre) = some (Item.bar id) := by
+  obtain ⟨_, _, hcut, _⟩ := run_ok hf as hpl
   rw [h] at hcut
   simpa [Cut] using cutOK_split hcut
 
+/-- the same for a run from the initial state -/
+theorem consistent_cut_init (k b : Nat) (as : List Act) (hpl : Plain as) (pre post : List Obs) (id : Nat) (S : KVf)
+    (T : Timers) (h : (run k b as).2 = pre ++ Obs.snap id S T :: post) :
+    S = (entriesOf pre).foldl applyRec emptyKV ∧
+    userOf (entriesOf pre) = userProcs (procsOf pre) ∧
+    ∀ sr, sr < k → lastProc sr (procsOf pre) = some (Item.bar id) := by
+  have := consistent_cut (init k b) (init_fresh k b) as hpl pre post id S T h
+  simpa [init, userOf] using this
+
+/-- **The snapshot's timers.** The timer set of checkpoint `id` is exactly the store replayed from the trace before
+it: timers requested by the events the handler processed before the cut (each under the `SetTimer` guard of the
+watermark of that handler call) are in it, timers fired before the cut are not — and by `consistent_cut` nothing
+a sender delivered after its barrier `id` (in particular no watermark) contributed. -/
+theorem snapshot_timers (s0 : St) (hf : Fresh s0) (as : List Act) (hpl : Plain as) (pre post : List Obs) (id : Nat)
+    (S : KVf) (T : Timers) (h : (runFrom s0 [] as).2 = pre ++ Obs.snap id S T :: post) :
+    T = timersOf s0.timers pre := by
+  obtain ⟨_, _, _, _, _, htok⟩ := run_ok hf as hpl
+  rw [h] at htok
+  exact timersOK_split htok
+
+/-- every timer in a checkpoint was pending at the start of the epoch or was requested by a keyed event with that
+key and timestamp that the handler processed before the cut -/
+theorem snapshot_timers_from_events (s0 : St) (hf : Fresh s0) (as : List Act) (hpl : Plain as)
+    (pre post : List Obs) (id : Nat) (S : KVf) (T : Timers)
+    (h : (runFrom s0 [] as).2 = pre ++ Obs.snap id S T :: post) (t : Nat) (key : Bytes) (ht : (t, key) ∈ T) :
+    (t, key) ∈ s0.timers ∨ ∃ sr p, Entry.user sr key p t ∈ entriesOf pre := by
+  rw [snapshot_timers s0 hf as hpl pre post id S T h] at ht
+  exact mem_timersOf pre s0.timers ht
+
 /-- **Post-barrier events are blocked.** After the barrier of sender `sr` has been accepted, the consumer takes no
-further item of `sr` (keyed event, watermark — hence no timer firing caused by it — or barrier) until a snapshot
-has been taken. -/
-theorem post_barrier_blocked (k b : Nat) (as : List Act) (pre mid post : List Obs) (sr id : Nat) (it : Item)
-    (h : (run k b as).2 = pre ++ Obs.reg sr id :: (mid ++ Obs.proc sr it :: post)) :
+further item of `sr` (keyed event, watermark — hence no timer firing caused by it — barrier or source-complete)
+until a snapshot has been taken. -/
+theorem post_barrier_blocked (s0 : St) (hf : Fresh s0) (as : List Act) (hpl : Plain as) (pre mid post : List Obs)
+    (sr id : Nat) (it : Item)
+    (h : (runFrom s0 [] as).2 = pre ++ Obs.reg sr id :: (mid ++ Obs.proc sr it :: post)) :
     ∃ id' S T, Obs.snap id' S T ∈ mid := by
-  obtain ⟨_, _, _, hal⟩ := run_ok k b as
+  obtain ⟨_, _, _, hal, _⟩ := run_ok hf as hpl
   rw [h, alignOK_append] at hal
   have h2 := hal.2
   simp only [alignOK] at h2
-  exact alignOK_blocked mid _ post List.mem_cons_self h2
+  exact alignOK_blocked mid _ post ⟨id, List.mem_cons_self⟩ h2
 
 /-- the same as a state invariant: while checkpoint `id` is in progress, a sender whose barrier is no longer
 missing has delivered that barrier as its last item and is not standing at the gate in front of the consumer -/
-theorem delivered_sender_blocked (k b : Nat) (as : List Act) (id : Nat) (m : List Nat)
-    (hc : (run k b as).1.ckpt = some (id, m)) (sr : Nat) (hsr : sr < k) (hm : sr ∉ m) :
-    lastProc sr (procsOf (run k b as).2) = some (Item.bar id) ∧
-    ∀ it, (run k b as).1.slots sr ≠ some (it, true) := by
-  obtain ⟨hk, hinv, _, _⟩ := run_ok k b as
-  exact hinv.ck id m hc sr (by rw [hk]; exact hsr) hm
+theorem delivered_sender_blocked (s0 : St) (hf : Fresh s0) (as : List Act) (hpl : Plain as) (id : Nat)
+    (m : List Nat) (hc : (runFrom s0 [] as).1.ckpt = some (id, m)) (sr : Nat) (hsr : sr < s0.k) (hm : sr ∉ m) :
+    lastProc sr (procsOf (runFrom s0 [] as).2) = some (Item.bar id) ∧
+    ∀ it, (runFrom s0 [] as).1.slots sr ≠ some (it, true) := by
+  obtain ⟨hk, hinv, _⟩ := run_ok hf as hpl
+  exact (hinv.ck id m hc).2 sr (by rw [hk]; exact hsr) hm
 
-/-- **Consecutive checkpoints.** Between two snapshots of one run every sender had a fresh barrier accepted: no
-checkpoint reuses barriers of an earlier one, for any number of checkpoints in a run. -/
-theorem consecutive_checkpoints (k b : Nat) (as : List Act) (pre mid post : List Obs) (id1 id2 : Nat)
-    (S1 S2 : KVf) (T1 T2 : Timers)
-    (h : (run k b as).2 = pre ++ Obs.snap id1 S1 T1 :: (mid ++ Obs.snap id2 S2 T2 :: post)) :
-    ∀ sr, sr < k → ∃ i, Obs.reg sr i ∈ mid := by
-  obtain ⟨_, _, _, hal⟩ := run_ok k b as
+/-- **Consecutive checkpoints.** Between two snapshots of one run every sender had a fresh barrier accepted, and
+it carries the id of the second snapshot: no checkpoint reuses barriers of an earlier one or mixes ids, for any
+number of checkpoints in a run. -/
+theorem consecutive_checkpoints (s0 : St) (hf : Fresh s0) (as : List Act) (hpl : Plain as) (pre mid post : List Obs)
+    (id1 id2 : Nat) (S1 S2 : KVf) (T1 T2 : Timers)
+    (h : (runFrom s0 [] as).2 = pre ++ Obs.snap id1 S1 T1 :: (mid ++ Obs.snap id2 S2 T2 :: post)) :
+    ∀ sr, sr < s0.k → Obs.reg sr id2 ∈ mid := by
+  obtain ⟨_, _, _, hal, _⟩ := run_ok hf as hpl
   rw [h, alignOK_append] at hal
   have h2 := hal.2
   simp only [alignOK] at h2
@@ -73,27 +118,102 @@ theorem consecutive_checkpoints (k b : Nat) (as : List Act) (pre mid post : List
   · cases hg
   · exact hreg
 
-/-- **Id mismatch is rejected.** A barrier whose id differs from the checkpoint in progress changes nothing but
+/-- the first snapshot of an epoch, too, needs an accepted barrier with its id from every sender -/
+theorem first_checkpoint (s0 : St) (hf : Fresh s0) (as : List Act) (hpl : Plain as) (pre post : List Obs)
+    (id : Nat) (S : KVf) (T : Timers) (h : (runFrom s0 [] as).2 = pre ++ Obs.snap id S T :: post) :
+    ∀ sr, sr < s0.k → Obs.reg sr id ∈ pre := by
+  obtain ⟨_, _, _, hal, _⟩ := run_ok hf as hpl
+  rw [h] at hal
+  intro sr hsr
+  rcases alignOK_fresh pre [] post hal sr hsr with hg | hreg
+  · cases hg
+  · exact hreg
+
+/-- **Id mismatch is rejected.** A barrier whose id differs from the checkpoint record in place changes nothing but
 the sender's own call returning (with the mismatch error): the checkpoint, the missing set, the store, the
 pending batch and the parked senders are untouched and no snapshot is taken. -/
-theorem id_mismatch_rejected (s : St) (sr id cid : Nat) (m : List Nat) (hsr : sr < s.k)
-    (hslot : s.slots sr = some (Item.bar id, true)) (hc : s.ckpt = some (cid, m)) (hne : id ≠ cid) :
+theorem id_mismatch_rejected (s : St) (sr id cid : Nat) (m : List Nat) (hlive : s.stopped = false)
+    (hsr : sr < s.k) (hslot : s.slots sr = some (Item.bar id, true)) (hc : s.ckpt = some (cid, m))
+    (hne : id ≠ cid) :
     step s (Act.go sr) =
       ({ s with slots := fun i => if i = sr then none else s.slots i },
        [Obs.proc sr (Item.bar id), Obs.reject sr id cid]) := by
   have hv : virtCk s id = (cid, m) := by simp [virtCk, hc]
-  rw [step_go_run hsr hslot]
+  unfold step
+  rw [if_neg (by simp [hlive]), stepLive_go_run hsr hslot]
   simp only [process]
   rw [barrier_reject (by rw [hv]; exact hne), hv]
   simp only [← hc]
 
 /-- **No stranded sender.** A sender is parked only while a checkpoint is in progress that already holds its
 barrier; in particular once the checkpoint is reset nobody is left waiting on `allBarriersReceived`. -/
-theorem no_stranded_sender (k b : Nat) (as : List Act) (sr : Nat) (it : Item)
-    (h : (run k b as).1.slots sr = some (it, false)) :
-    ∃ id m, (run k b as).1.ckpt = some (id, m) ∧ sr ∉ m := by
-  obtain ⟨_, hinv, _, _⟩ := run_ok k b as
+theorem no_stranded_sender (s0 : St) (hf : Fresh s0) (as : List Act) (hpl : Plain as) (sr : Nat) (it : Item)
+    (h : (runFrom s0 [] as).1.slots sr = some (it, false)) :
+    ∃ id m, (runFrom s0 [] as).1.ckpt = some (id, m) ∧ sr ∉ m := by
+  obtain ⟨_, hinv, _⟩ := run_ok hf as hpl
   exact hinv.parked sr it h
+
+/-! ## epochs: the initial state and every redeploy start a fresh epoch -/
+
+theorem init_is_fresh (k b : Nat) : Fresh (init k b) := init_fresh k b
+
+/-- **Redeploy (D15 + D43).** `HandleDeploy` abandons the checkpoint of the previous deployment: afterwards no
+checkpoint is in progress and nobody is parked — the senders that were parked are reported as turned away, their
+slots are empty, so their items never reach the consumer — and the new epoch is fresh. -/
+theorem redeploy_is_fresh (s : St) (hlive : s.stopped = false) (haf : s.ackFails = false) :
+    Fresh (step s Act.redeploy).1 ∧
+    (step s Act.redeploy).2 = [Obs.redeployed (parkedList s)] ∧
+    ∀ sr it, s.slots sr = some (it, false) → (step s Act.redeploy).1.slots sr = none := by
+  have hst : step s Act.redeploy = redeploy s := by
+    unfold step
+    rw [if_neg (by simp [hlive])]
+    rfl
+  rw [hst]
+  refine ⟨⟨rfl, ?_, haf⟩, rfl, ?_⟩
+  · intro sr it
+    simp only [redeploy]
+    cases hs : s.slots sr with
+    | none => simp
+    | some v =>
+      obtain ⟨it', b⟩ := v
+      cases b <;> simp
+  · intro sr it hs
+    simp only [redeploy]
+    rw [hs]
+
+/-! ## what the code guarantees when the ack to the job fails -/
+
+/-- the completing barrier still flushes the batch and takes the snapshot, the sender gets the error, and the
+completed record `(id, [])` stays in place: no `ack`, parked senders released, the failure flag consumed -/
+theorem failed_ack_leaves_record (s : St) (sr id : Nat) (hid : id = (virtCk s id).1)
+    (hlast : ((virtCk s id).2.filter (· ≠ sr)).isEmpty = true) (haf : s.ackFails = true) :
+    (barrier s sr id).1.ckpt = some (id, []) ∧ (barrier s sr id).1.pending = [] ∧
+    (barrier s sr id).1.ackFails = false ∧
+    (∀ i it, (barrier s sr id).1.slots i ≠ some (it, false)) ∧
+    Obs.ackfail id ∈ (barrier s sr id).2 ∧ ∀ j, Obs.ack j ∉ (barrier s sr id).2 := by
+  rw [barrier_failed hid hlast haf]
+  have hf := flush_ext s
+  refine ⟨by simp [← hid], flush_pending s, rfl, ?_, by simp [← hid], ?_⟩
+  · intro i it
+    simp only [release]
+    cases (flush s).1.slots i <;> simp
+  · intro j hj
+    simp only [List.cons_append, List.nil_append, List.mem_cons, List.mem_append, reduceCtorEq, false_or] at hj
+    rcases hj with hj | hj
+    · rcases hf.onlyH _ hj with ⟨_, _, _, h⟩ | ⟨_, _, h⟩ <;> cases h
+    · simp at hj
+
+/-- with the completed record in place no sender is held back any more -/
+theorem stale_record_never_blocks (s : St) (id sr : Nat) (hc : s.ckpt = some (id, [])) : passes s sr = true := by
+  simp [passes, hc]
+
+/-- and every barrier carrying another id is rejected (instance of `id_mismatch_rejected`), so no checkpoint with a
+new id can complete until a redeploy replaces the record -/
+theorem stale_record_rejects (s : St) (sr id cid : Nat) (hlive : s.stopped = false) (hsr : sr < s.k)
+    (hslot : s.slots sr = some (Item.bar id, true)) (hc : s.ckpt = some (cid, [])) (hne : id ≠ cid) :
+    (step s (Act.go sr)).1.ckpt = some (cid, []) ∧ (step s (Act.go sr)).2 = [Obs.proc sr (Item.bar id), Obs.reject sr id cid] := by
+  rw [id_mismatch_rejected s sr id cid [] hlive hsr hslot hc hne]
+  exact ⟨hc, rfl⟩
 
 /-! ## non-vacuity -/
 
@@ -112,6 +232,11 @@ def rejectsOf : List Obs → List (Nat × Nat × Nat)
   | Obs.reject sr a c :: r => (sr, a, c) :: rejectsOf r
   | _ :: r => rejectsOf r
 
+def abortedOf : List Obs → List (List Nat)
+  | [] => []
+  | Obs.redeployed l :: r => l :: abortedOf r
+  | _ :: r => abortedOf r
+
 /-- two senders, batch size 3: sender 0 runs ahead, delivers barrier 1 and parks with a post-barrier event; the
 pending batch is flushed into the snapshot; the post-barrier event (payload 9) is not in checkpoint 1 but is in
 checkpoint 2 -/
@@ -120,6 +245,7 @@ def demo : List Act :=
    .align 1 (.ev [0x61] 2 0), .go 1, .go 0, .align 1 (.bar 1), .go 1, .go 0,
    .align 0 (.bar 2), .go 0, .align 1 (.bar 2), .go 1]
 
+example : Plain demo := by unfold Plain; decide
 example : parkedOf (run 2 3 demo).2 = [0] := by decide
 example : (snapsOf (run 2 3 demo).2).map (fun x => (x.1, x.2.1 [0x61])) = [(1, [1, 2]), (2, [1, 2, 9])] := by decide
 
@@ -130,7 +256,8 @@ def demoMismatch : List Act :=
 example : rejectsOf (run 2 1 demoMismatch).2 = [(1, 7, 1)] := by decide
 example : (snapsOf (run 2 1 demoMismatch).2).map (·.1) = [1] := by decide
 
-/-- a timer set before the barrier and fired by a post-barrier watermark fires only after checkpoint 1 -/
+/-- a timer set before the barrier and fired by a post-barrier watermark fires only after checkpoint 1: it is still
+in checkpoint 1's timer set -/
 def demoTimer : List Act :=
   [.align 0 (.ev [0x61] 1 5), .go 0, .align 0 (.bar 1), .go 0, .align 0 (.wm 9), .align 1 (.wm 9), .go 1,
    .align 1 (.bar 1), .go 1, .go 0]
@@ -138,5 +265,28 @@ def demoTimer : List Act :=
 example : (snapsOf (run 2 1 demoTimer).2).map (fun x => (x.1, x.2.1 [0x61], x.2.2)) = [(1, [1], [(5, [0x61])])] := by
   decide
 example : (run 2 1 demoTimer).1.kv [0x61] = [1, 0xff, 5] := by decide
+
+/-- a timer fired before the cut is not in the checkpoint -/
+def demoTimerFired : List Act :=
+  [.align 0 (.ev [0x61] 1 5), .go 0, .align 0 (.wm 9), .go 0, .align 0 (.bar 1), .go 0]
+
+example : (snapsOf (run 1 1 demoTimerFired).2).map (fun x => (x.1, x.2.1 [0x61], x.2.2)) = [(1, [1, 0xff, 5], [])] := by
+  decide
+
+/-- D43: sender 0 is parked behind barrier 1 when the operator is redeployed: it is turned away, its event (payload 9)
+never reaches the state, and the new epoch checkpoints normally -/
+def demoRedeploy : List Act :=
+  [.align 0 (.bar 1), .go 0, .align 0 (.ev [0x61] 9 0), .redeploy, .go 0,
+   .align 0 (.ev [0x61] 2 0), .go 0, .align 0 (.bar 2), .go 0, .align 1 (.bar 2), .go 1]
+
+example : abortedOf (run 2 1 demoRedeploy).2 = [[0]] := by decide
+example : (snapsOf (run 2 1 demoRedeploy).2).map (fun x => (x.1, x.2.1 [0x61])) = [(2, [2])] := by decide
+
+/-- failed ack: the record of checkpoint 1 stays, barrier 2 is rejected until the redeploy -/
+def demoAckFail : List Act :=
+  [.armFail, .align 0 (.bar 1), .go 0, .align 0 (.bar 2), .go 0, .redeploy, .align 0 (.bar 2), .go 0]
+
+example : rejectsOf (run 1 1 demoAckFail).2 = [(0, 2, 1)] := by decide
+example : (snapsOf (run 1 1 demoAckFail).2).map (·.1) = [1, 2] := by decide
 
 end Rxn.C02
